@@ -5,7 +5,8 @@
 // throw travel as return values), a Go panic that TryStatement's guard turns into a script exception.
 //
 // A pair is recognised by name: X.Enter…/X.Leave…, X.Push…/X.Pop…, X.Begin…/X.End…, X.Acquire…/X.Release…,
-// X.Lock/X.Unlock, X.RLock/X.RUnlock (same receiver expression, same suffix). For every function that calls an
+// X.Lock/X.Unlock, X.RLock/X.RUnlock (same receiver expression, same suffix), and a field or package-level counter
+// that one function both increments and decrements by hand (`X++ … X--`). For every function that calls an
 // Enter the translator walks the statements (if / switch / type switch / select / for / range / blocks, local
 // closures that call the Leave) with the number of entered-and-not-yet-left operations and reports
 //   deferred   a `defer X.Leave…()` (or a deferred closure calling it) is registered while the operation is
@@ -125,6 +126,7 @@ type analyser struct {
 	deferred map[string]bool            // key → a deferred Leave was registered while entered
 	unbal    map[string][]int           // key → lines of returns reached while entered
 	runs     map[string]bool            // key → script code is evaluated while entered (…GetValue( / …Call( )
+	counters map[string]bool            // non-local counters the function both increments and decrements
 	order    []string
 }
 
@@ -132,13 +134,55 @@ type analyser struct {
 func leavesIn(n ast.Node) map[string]bool {
 	res := map[string]bool{}
 	ast.Inspect(n, func(x ast.Node) bool {
-		if c, ok := x.(*ast.CallExpr); ok {
-			if k, key, _ := callOp(c); k < 0 {
+		switch t := x.(type) {
+		case *ast.CallExpr:
+			if k, key, _ := callOp(t); k < 0 {
 				res[key] = true
+			}
+		case *ast.IncDecStmt:
+			if t.Tok == token.DEC {
+				res[path(t.X)+"#count#"] = true
 			}
 		}
 		return true
 	})
+	return res
+}
+
+// nonLocal: a field (x.f) or a package-level variable — something that outlives the call
+func nonLocal(e ast.Expr, fd *ast.FuncDecl) bool {
+	switch t := e.(type) {
+	case *ast.SelectorExpr:
+		return true
+	case *ast.Ident:
+		if t.Obj == nil {
+			return true // declared in another file of the package
+		}
+		return t.Obj.Pos() < fd.Pos() || t.Obj.Pos() > fd.End()
+	}
+	return false
+}
+
+// counters this function both raises and lowers by hand (`X++ … X--` on a non-local X): a bracket written
+// without Enter/Leave methods
+func handCounters(fd *ast.FuncDecl) map[string]bool {
+	inc, dec := map[string]bool{}, map[string]bool{}
+	ast.Inspect(fd.Body, func(x ast.Node) bool {
+		if id, ok := x.(*ast.IncDecStmt); ok && nonLocal(id.X, fd) {
+			if id.Tok == token.INC {
+				inc[path(id.X)] = true
+			} else {
+				dec[path(id.X)] = true
+			}
+		}
+		return true
+	})
+	res := map[string]bool{}
+	for k := range inc {
+		if dec[k] {
+			res[k] = true
+		}
+	}
 	return res
 }
 
@@ -217,6 +261,22 @@ func (a *analyser) stmt(s ast.Stmt, st state) (state, bool) {
 			}
 		}
 		a.exprOps(t, st)
+	case *ast.IncDecStmt:
+		if p := path(t.X); a.counters[p] {
+			key := p + "#count#"
+			if t.Tok == token.INC {
+				if _, ok := a.enters[key]; !ok {
+					a.enters[key] = p + "++"
+					a.order = append(a.order, key)
+				}
+				st[key]++
+			} else {
+				a.leaves[key] = p + "--"
+				if st[key] > 0 {
+					st[key]--
+				}
+			}
+		}
 	case *ast.DeferStmt:
 		keys := map[string]bool{}
 		if k, key, w := callOp(t.Call); k < 0 {
@@ -405,7 +465,7 @@ func main() {
 					continue
 				}
 				an := &analyser{fset: fset, closures: map[string]map[string]bool{}, enters: map[string]string{}, leaves: map[string]string{},
-					deferred: map[string]bool{}, unbal: map[string][]int{}, runs: map[string]bool{}}
+					deferred: map[string]bool{}, unbal: map[string][]int{}, runs: map[string]bool{}, counters: handCounters(fd)}
 				st, term := an.walk(fd.Body.List, state{})
 				if !term {
 					an.atExit(st, 0)
